@@ -105,6 +105,8 @@ class Interp(object):
         """the holder an expression denotes, or None"""
         if is_key_read(e):
             return KEY
+        if isinstance(e, ast.Subscript) and isinstance(e.value, ast.Name) and isinstance(e.slice, ast.Constant) and isinstance(e.slice.value, int):
+            return "%s[%d]" % (e.value.id, e.slice.value)  # an element of a `*args` tuple
         if isinstance(e, ast.Name):
             b = env.get(e.id)
             if isinstance(b, tuple) and b[0] == "holder":
@@ -618,14 +620,19 @@ def analyse(prog, fi):
 def may_return_param(prog, fi, index=0):
     """True when some path of fi returns the very value it received as its parameter number `index` (an identity path: `return s`
     after `s = s if ... else ...`); None when fi could not be followed"""
-    params = fi.params()
-    if index >= len(params):
-        return False
+    a = fi.node.args
+    positional = [x.arg for x in getattr(a, "posonlyargs", [])] + [x.arg for x in a.args]
     it = Interp(prog)
     st = State({}, {})
-    for i, p in enumerate(params):
-        st.holders[p] = st.fresh(i == index)
-    g = st.holders[params[index]]
+    for p in fi.params():
+        st.holders[p] = st.fresh(False)
+    if index < len(positional):
+        g = st.holders[positional[index]] = st.fresh(True)
+    elif a.vararg is not None:
+        # `def identity(*args): return args[0] if len(args) == 1 else args`
+        g = st.holders["%s[%d]" % (a.vararg.arg, index - len(positional))] = st.fresh(True)
+    else:
+        return False
     try:
         out = it.block(fi.node.body, [st], {}, 0)
     except (TooComplex, RecursionError):
